@@ -470,6 +470,20 @@ def c18_scripts(rng, tier, schedules):
         else:
             rel["degree"] = rng.choice(gen.DEGREES)
             rel["r"] = gen.rj(rng.choice(gen.RATIOS))
+        if rng.random() < 0.4:
+            # the reference's own configuration with its table / block length scaled by a small factor, odd
+            # factors included (a cache that serves a shorter table from a longer one - seeded change C18d)
+            k = rng.choice([3, 5, 6, 2, 7, 3])
+            rel = dict(n)
+            if kind in gen.FFT:
+                rel["chunk"] = n["chunk"] * k
+            elif kind.startswith("Sinc"):
+                if rng.random() < 0.5 and n.get("L", 8) * k <= 1024:
+                    rel["L"] = 8 * ((n.get("L", 8) + 7) // 8) * k
+                else:
+                    rel["F"] = n.get("F", 2) * k
+            else:
+                rel["chunk"] = n["chunk"] * k
         sig(rel, rng)
         inter.append(rel)
         ops = [{"op": "note", "twin": "full", "a": 0, "b": 1}]
